@@ -72,24 +72,25 @@ pub fn exec<T: Payload>(prop: &str, cfg: &ExecCfg, mut next: impl FnMut(&World<T
         if out.skipped {
             continue;
         }
-        if !out.viols.is_empty() {
-            let opn = ops.last().unwrap().name().to_string();
-            match out.viols.iter().find(|v| owns(prop, v)) {
-                Some(v) => {
-                    found = Some(Found {
-                        viol: v.clone(),
-                        at: ops.len() - 1,
-                        op: opn,
-                        rel: out.rel.name().to_string(),
-                    });
-                }
-                None => truncated = true,
-            }
+        if let Some(v) = out.viols.iter().find(|v| owns(prop, v)) {
+            found = Some(Found {
+                viol: v.clone(),
+                at: ops.len() - 1,
+                op: ops.last().unwrap().name().to_string(),
+                rel: out.rel.name().to_string(),
+            });
             break;
         }
         if world.diverged {
+            // another property's business made the real state uninterpretable for the model:
+            // this run ends silently (it neither alarms nor keeps going)
             truncated = true;
             break;
+        }
+        if !out.viols.is_empty() {
+            // a foreign violation that leaves model and arena in step: keep exploring, so that
+            // one defect does not starve this property's exploration
+            world.stats.probe("foreign_violation_run_continued");
         }
     }
     if let Some(p) = progress {
